@@ -227,4 +227,90 @@ Proof.
     + inversion E1; subst. cbn [first_open]. now apply (IH st' rs2 f).
 Qed.
 
+(* ---- histories with rejected operations -------------------------------------------------- *)
+(* If no block ever exceeds the 4 GiB header fields (cfits always true - the only way a flush
+   can fail), a failing operation changes nothing at all and the log grows by exactly the
+   accepted entries: for every history, with any mixture of accepted and rejected operations. *)
+Section AnyResults.
+Hypothesis cfits_true : forall b, cfits b = true.
+
+Definition InvC (st : state) : Prop :=
+  match s_w st with Some w => nlen (w_buf w) < MaxEntriesPerBlock | None => True end.
+
+Definition acc1 (op : wop K D NM) (r : res) : list lent :=
+  match r with ROk => ents op | RErr => [] end.
+Fixpoint accepted (ops : list (wop K D NM)) (rs : list res) : list lent :=
+  match ops, rs with
+  | op :: t, r :: rt => acc1 op r ++ accepted t rt
+  | _, _ => []
+  end.
+
+Lemma flush_ok f w : nlen (w_buf w) <= MaxEntriesPerBlock -> exists f' w', flush f w = (f', w', ROk) /\ w_buf w' = [].
+Proof.
+  intro H. unfold Writer.flush. destruct (w_buf w) as [|e b] eqn:Eb.
+  - exists f, w. now rewrite Eb.
+  - unfold Writer.block_ok. rewrite cfits_true. apply N.leb_le in H. rewrite H. cbn. eauto.
+Qed.
+
+Lemma step_gen st op st' r :
+  InvC st -> step st op = (st', r) ->
+  InvC st' /\ log st' = log st ++ acc1 op r /\ (r = RErr -> st' = st).
+Proof.
+  unfold InvC, log. destruct st as [[f|] [w|]]; cbn [s_file s_w]; intro HI;
+  destruct op as [nm|e fl| | |]; cbn [Writer.step s_file s_w andb ents file_log];
+  try (intro H; inversion H; subst; cbn; rewrite ?app_nil_r; now auto).
+  - destruct (encodable e); cbn [negb]; [|intro H; inversion H; subst; cbn; rewrite ?app_nil_r; now auto].
+    set (w1 := mkW (w_buf w ++ [e]) (w_bc w) (w_ec w)).
+    assert (Hn1 : nlen (w_buf w1) = nlen (w_buf w) + 1).
+    { cbn. unfold nlen. rewrite app_length. cbn. lia. }
+    destruct (MaxEntriesPerBlock <=? nlen (w_buf w1)) eqn:Ecap.
+    + rewrite orb_true_r.
+      destruct (flush_ok f w1) as (f' & w' & Efl & Hb'); [lia|].
+      rewrite Efl. intro H; inversion H; subst. cbn [s_file s_w file_log acc1 ents].
+      apply flush_spec in Efl. destruct Efl as (_ & _ & Hl & _ & _).
+      rewrite Hb' in *. split; [cbn; unfold MaxEntriesPerBlock; lia|]. split; [|discriminate].
+      rewrite Hl. cbn. now rewrite app_assoc.
+    + rewrite orb_false_r. apply N.leb_gt in Ecap. destruct fl.
+      * destruct (flush_ok f w1) as (f' & w' & Efl & Hb'); [lia|].
+        rewrite Efl. intro H; inversion H; subst. cbn [s_file s_w file_log acc1 ents].
+        apply flush_spec in Efl. destruct Efl as (_ & _ & Hl & _ & _).
+        rewrite Hb' in *. split; [cbn; unfold MaxEntriesPerBlock; lia|]. split; [|discriminate].
+        rewrite Hl. cbn. now rewrite app_assoc.
+      * intro H; inversion H; subst. cbn [s_file s_w file_log acc1 ents].
+        split; [exact Ecap|]. split; [|discriminate]. cbn. now rewrite app_assoc.
+  - destruct (flush_ok f w) as (f' & w' & Efl & Hb'); [lia|].
+    rewrite Efl. intro H; inversion H; subst. cbn [s_file s_w file_log acc1 ents].
+    apply flush_spec in Efl. destruct Efl as (_ & _ & Hl & _ & _).
+    rewrite Hb' in *. split; [cbn; unfold MaxEntriesPerBlock; lia|]. split; [|discriminate].
+    rewrite Hl. now rewrite app_nil_r.
+  - destruct (flush_ok f w) as (f' & w' & Efl & Hb'); [lia|].
+    rewrite Efl. intro H; inversion H; subst. cbn [s_file s_w file_log acc1 ents].
+    apply flush_spec in Efl. destruct Efl as (_ & _ & Hl & _ & _).
+    rewrite Hb' in *. split; [cbn; unfold MaxEntriesPerBlock; lia|]. split; [|discriminate].
+    rewrite Hl. now rewrite app_nil_r.
+  - destruct (flush_ok f w) as (f' & w' & Efl & Hb'); [lia|].
+    rewrite Efl. intro H; inversion H; subst. cbn [s_file s_w file_log acc1 ents].
+    apply flush_spec in Efl. destruct Efl as (_ & _ & Hl & _ & _).
+    rewrite Hb' in *. split; [exact I|]. split; [|discriminate].
+    rewrite !app_nil_r in *. exact Hl.
+  - destruct (MaxNameSize <? nmlen nm); cbn [andb]; intro H; inversion H; subst; cbn; auto.
+    split; [unfold MaxEntriesPerBlock; lia | auto]. split; [reflexivity | discriminate].
+Qed.
+
+Lemma run_gen ops : forall st st' rs,
+  InvC st -> run st ops = (st', rs) ->
+  InvC st' /\ log st' = log st ++ accepted ops rs /\ length rs = length ops.
+Proof.
+  induction ops as [|op ops IH]; intros st st' rs HI.
+  - cbn. intro H; inversion H; subst. rewrite app_nil_r. auto.
+  - cbn [Writer.run]. destruct (step st op) as [st1 r] eqn:E1.
+    destruct (run st1 ops) as [st2 rs2] eqn:E2. intro H; inversion H; subst.
+    destruct (step_gen _ _ _ _ HI E1) as (HI1 & HL1 & _).
+    destruct (IH _ _ _ HI1 E2) as (HI2 & HL2 & Hlen).
+    split; [exact HI2|]. split; [|cbn; now rewrite Hlen].
+    rewrite HL2, HL1. cbn [accepted]. now rewrite app_assoc.
+Qed.
+
+End AnyResults.
+
 End WriterProofs.
